@@ -101,6 +101,14 @@ def parts_of(E, h):
     return Parts(nd(h))
 
 
+def apply_rules_at(E, h, q):
+    """instantiate, at key q, the view rules recorded for the node h (as result or as source of a callee)"""
+    h = z3.simplify(h)
+    for (hr, fn, src) in E.ghost.get("view_rules", []):
+        if hr.eq(h) or z3.simplify(src).eq(h):
+            E.assume(mk_bool(fn(q)))
+
+
 def is_known_node(E, c):
     c = z3.simplify(c)
     if z3.is_app(c) and c.decl().eq(specfn.keccak):
